@@ -179,3 +179,13 @@ func refSealPad(gcm bool, key, iv, mac []byte, seq []byte, typ byte, ver [2]byte
 func refSeq64(n uint64) []byte {
 	return []byte{byte(n >> 56), byte(n >> 48), byte(n >> 40), byte(n >> 32), byte(n >> 24), byte(n >> 16), byte(n >> 8), byte(n)}
 }
+
+// refCBCRaw encrypts whole blocks as given (no MAC, no padding added): for hostile records whose
+// plaintext structure the sender chooses freely.
+func refCBCRaw(key, iv16, blocks []byte) []byte {
+	blk, _ := sm4.NewCipher(key)
+	enc := cipher.NewCBCEncrypter(blk, iv16[:16])
+	out := make([]byte, len(blocks))
+	enc.CryptBlocks(out, blocks)
+	return refCat(iv16[:16], out)
+}
